@@ -259,9 +259,29 @@ pub fn run(rep: &mut Report, rng: &mut Rng, thorough: bool) {
             2 => {
                 let f = *r.pick(&files.iter().filter(|f| f.fmt == "lzip").collect::<Vec<_>>());
                 let mut m = f.bytes.clone();
-                for _ in 0..r.range(1, 4) {
-                    let p = r.below(m.len() as u64) as usize;
-                    m[p] = match r.below(3) { 0 => 0xFF, 1 => 0, _ => r.next() as u8 };
+                // member ends of the valid file (walking the trailers from the end)
+                let mut ends = vec![];
+                let mut end = m.len();
+                while end >= 26 {
+                    let ms = u64::from_le_bytes(m[end - 8..end].try_into().unwrap()) as usize;
+                    if ms == 0 || ms > end {
+                        break;
+                    }
+                    ends.push(end);
+                    end -= ms;
+                }
+                if ends.len() >= 2 && r.chance(1, 2) {
+                    // a trailer field of a member (not only the last one) at an extreme value
+                    let e = *r.pick(&ends);
+                    let field = *r.pick(&[(8usize, 8usize), (16, 8), (20, 4)]); // member_size, data_size, crc
+                    let v: u64 = *r.pick(&[0u64, 1, 19, 20, 26, u64::MAX, m.len() as u64, m.len() as u64 + 1]);
+                    let bytes = v.to_le_bytes();
+                    m[e - field.0..e - field.0 + field.1].copy_from_slice(&bytes[..field.1]);
+                } else {
+                    for _ in 0..r.range(1, 4) {
+                        let p = r.below(m.len() as u64) as usize;
+                        m[p] = match r.below(3) { 0 => 0xFF, 1 => 0, _ => r.next() as u8 };
+                    }
                 }
                 let v = run_case(|| lzip_decompress(&m, &[4096], cap));
                 let d = json!({"decoder": "lzip", "file": f.name, "input_hex": if m.len() <= 400 { hex(&m) } else { format!("fnv:{}", fnv(&m)) }, "case": i});
@@ -271,7 +291,7 @@ pub fn run(rep: &mut Report, rng: &mut Rng, thorough: bool) {
                 }
                 // the backward member scan of LZIPReaderMT::new against the model scan (Guards.scanFile)
                 if m.len() <= 3000 {
-                    let exp = match guard(|| Ok(LZIPReaderMT::new(std::io::Cursor::new(m.clone()), 1)?.member_count())) {
+                    let exp = match guard(|| Ok(LZIPReaderMT::new(BudgetCursor::new(m.clone(), 300_000), 1)?.member_count())) {
                         Outcome::Ok(n) => format!("ok {n}"),
                         Outcome::Err(k, _) => format!("err {}", kind_name(k)),
                         Outcome::Panic(_) => "panic".to_string(),
@@ -281,9 +301,12 @@ pub fn run(rep: &mut Report, rng: &mut Rng, thorough: bool) {
                 // LZIPReaderMT on the same bytes (real threads; no schedule control here)
                 let m2 = m.clone();
                 let v = run_case(|| guard(|| {
-                    let mut rd = LZIPReaderMT::new(std::io::Cursor::new(m2), 2)?;
+                    let mut rd = LZIPReaderMT::new(BudgetCursor::new(m2, 300_000), 2)?;
                     read_all_sched(&mut rd, &[4096], cap)
                 }));
+                if v.class.contains("call-budget-exhausted") {
+                    rep.fail("decoder-hang:lzip-mt", "LZIPReaderMT made more than 300000 read/seek calls on a small input without finishing", d.clone());
+                }
                 judge(rep, "lzip-mt", &v, 2 * lzip_declared_dict(&m), m.len(), d.clone());
                 rep.case(format!("lzip:{}", f.name), true, || d);
             }
